@@ -33,21 +33,29 @@
     `truncation_impossible`: any other outcome A's application sees is not a
     ComplexAck (abort / error / reject).
 
-  The only hypothesis beyond the geometry bookkeeping (`Params.Geo`) is the
-  property's own "at most 256 segments per direction" (`Geo.leP`, `Geo.leR`)
-  and "device information does not change during the exchange" (`StableB`,
-  no `learn` move).  Both receivers open a buffer only from a segment with
-  sequence number 0 (fixes/C05-server-first-segment-seq0,
+  The only hypotheses beyond the geometry bookkeeping (`Params.Geo`) are the
+  property's own "at most 256 segments per direction" (`hP`, `hR`) and "device
+  information does not change during the exchange" (`StableB`, no `learn`
+  move).  Both receivers open a buffer only from a segment with sequence
+  number 0 (fixes/C05-server-first-segment-seq0,
   fixes/C05-client-first-ack-segment-seq0): without these two repairs the
   theorem is false (see notes/C05.md) — the medium may re-deliver frames after
   a transaction is over, and A's application may submit again at any time.
 
+  Any length: `payload_exact_near_partial` / `reassembly_inv_near` prove the
+  same for transfers of ANY number of segments under the medium hypothesis
+  `RunNear` (no segment is delivered 256 or more segments away from what its
+  receiver expects — forced by modulo-256 numbers); `payload_exact` is the
+  instance where `RunNear` is free (`runNear_of_le256`).
+
   Not proved:
-  * beyond 256 segments the theorem needs FIFO channels (loss + duplication
-    without overtaking by ≥ 256 segments); not proved — decided on the
-    implementation by the lockstep `long` stream and the end-to-end long runs.
-    Full statement: `payload_exact` with `Geo.leP`/`Geo.leR` dropped and the
-    medium `net` replaced by two queues (deliver / duplicate / drop the head).
+  * that FIFO channels (loss + duplication without overtaking) with windows
+    ≤ 127 satisfy `RunNear`: the sender keeps every frame within
+    `[initialSequenceNumber, + window)` (`window_segments`), the receiver's
+    position is never ahead of the sender's window; the queue argument that
+    ties both (ghost emission-time window starts per queued frame) is not
+    formalised — decided on the implementation by the lockstep `long` stream
+    and the end-to-end 255 … 600-segment runs.
   * `single_fault_progress` (leads-to) is NOT proved; the clause "any one
     fault is repaired" is decided on the implementation by the exhaustive
     single-fault sweep of harness/c05_impl.py.
@@ -279,6 +287,29 @@ structure SysInv (p : Params) (cfgA cfgB : Cfg) (devA devB : List (Peer × Devic
 def StableB (p : Params) (devB : List (Peer × DeviceInfo)) : Prop :=
   ∀ d, lookupDI devB p.peerA = some d → ∀ sa, promote sa (some d) = some d
 
+/-- the medium does not let a segment overtake (or fall behind) by 256 or more
+    segments: the segment frame about to be delivered is — under one of the
+    indices it can be read as — less than 256 away from the segment its
+    receiver expects next (one of the first 256 when the receiver has no
+    buffer yet).  With modulo-256 sequence numbers nothing weaker can work.
+    Transfers of at most 256 segments satisfy it for free
+    (`moveNear_of_le256`); FIFO channels with windows ≤ 127 satisfy it for
+    any length (not formalised). -/
+def MoveNear (p : Params) (s : Sys) : Move → Prop
+  | .deliverB i => ∀ f, s.net[i]? = some (true, f) → f.ty = 0 → f.invokeId = p.id → p.countP ≠ 1 →
+      f.seg = true → ∃ idx, IsSeg p.TP idx f ∧
+        (∀ t, findTxn p.kB s.b.servers = some t → NearIdx p.TP t.body idx) ∧
+        (findTxn p.kB s.b.servers = none → idx < 256)
+  | .deliverA i => ∀ f, s.net[i]? = some (false, f) → f.ty = 3 → f.invokeId = p.id → p.countR ≠ 1 →
+      f.seg = true → ∃ idx, IsSeg p.TR idx f ∧
+        (∀ t, findTxn p.kA s.a.clients = some t → NearC p.TR t.body idx)
+  | _ => True
+
+/-- every move of the run satisfies `MoveNear` in the state it is made in -/
+def RunNear (p : Params) (cfgA cfgB : Cfg) : Sys → List Move → Prop
+  | _, [] => True
+  | s, m :: ms => MoveNear p s m ∧ RunNear p cfgA cfgB (s.move p cfgA cfgB m).1 ms
+
 section
 variable {p : Params} {cfgA cfgB : Cfg} {devA devB : List (Peer × DeviceInfo)}
 
@@ -329,7 +360,7 @@ theorem moveOk_id {s : Sys} (hi : SysInv p cfgA cfgB devA devB s) :
     invariant, and everything either side hands to its environment satisfies
     the output guarantees of `specA` / `specB`. -/
 theorem move_ok (g : p.Geo cfgA cfgB devA devB) (hstab : StableB p devB) {s : Sys}
-    (hi : SysInv p cfgA cfgB devA devB s) (m : Move) :
+    (hi : SysInv p cfgA cfgB devA devB s) (m : Move) (hnear : MoveNear p s m) :
     MoveOk p cfgA cfgB devA devB (s.move p cfgA cfgB m) := by
   have sa := specA_sound g
   have sb := specB_sound g
@@ -346,10 +377,34 @@ theorem move_ok (g : p.Geo cfgA cfgB devA devB) (hstab : StableB p devB) {s : Sy
     · rename_i f hf
       have hm : (true, f) ∈ s.net := List.mem_of_getElem? hf
       have hn : p.ReqFrame f := by simpa [NetOk] using hi.net _ _ hm
+      -- the frame, read under the near index the medium guarantees
+      have hN : ∀ N : Nat → Prop,
+          (∀ idx, IsSeg p.TP idx f →
+            (∀ t, findTxn p.kB s.b.servers = some t → NearIdx p.TP t.body idx) →
+            (findTxn p.kB s.b.servers = none → idx < 256) → N idx) → p.ReqFrameN N f := by
+        intro N hNN h0 hid
+        obtain ⟨hg, hh⟩ := hn h0 hid
+        refine ⟨?_, hh⟩
+        intro _ _
+        obtain ⟨g1, g2⟩ := hg h0 hid
+        refine ⟨g1, fun hn1 => ?_⟩
+        obtain ⟨s1, _⟩ := g2 hn1
+        obtain ⟨idx, his, h1, h2⟩ := hnear f hf h0 hid hn1 s1
+        exact ⟨s1, idx, his, hNN idx his h1 h2⟩
       refine moveOk_B hi (Local.step_good _ sb hi.b _ ⟨fun _ _ => trivial, ?_, ?_⟩)
-      · intro t _ _; exact hn
-      · intro _ _
-        exact ⟨fun _ => hn, fun d hd => hstab d hd f.sa⟩
+      · intro t ht hk
+        apply hN
+        intro idx _ h1 _
+        obtain ⟨_, hkey⟩ := findTxn_some ht
+        rw [← hkey, hk] at ht
+        exact h1 t ht
+      · intro _ hnone
+        refine ⟨fun hk => ?_, fun d hd => hstab d hd f.sa⟩
+        apply hN
+        intro idx _ _ h2
+        apply h2
+        have hk' : (⟨p.peerA, f.invokeId⟩ : Key) = p.kB := hk
+        rw [← hk']; exact hnone
     · exact moveOk_id hi
   | deliverA i =>
     simp only [Sys.move]
@@ -358,7 +413,14 @@ theorem move_ok (g : p.Geo cfgA cfgB devA devB) (hstab : StableB p devB) {s : Sy
       have hm : (false, f) ∈ s.net := List.mem_of_getElem? hf
       have hn : f.ty ≠ 0 ∧ Genuine p.TR f := by simpa [NetOk] using hi.net _ _ hm
       refine moveOk_A hi (Local.step_good _ sa hi.a _ ⟨?_, fun _ _ => trivial, ?_⟩)
-      · intro t ht hk _; exact hn.2
+      · intro t ht hk h3 _ hid
+        obtain ⟨g1, g2⟩ := hn.2 h3 hid
+        refine ⟨g1, fun hn1 => ?_⟩
+        obtain ⟨s1, _⟩ := g2 hn1
+        obtain ⟨idx, his, h1⟩ := hnear f hf h3 hid hn1 s1
+        obtain ⟨_, hkey⟩ := findTxn_some ht
+        rw [← hkey, hk] at ht
+        exact ⟨s1, idx, his, h1 t ht⟩
       · intro h0; exact absurd h0 hn.1
     · exact moveOk_id hi
   | drop i =>
@@ -370,21 +432,44 @@ theorem move_ok (g : p.Geo cfgA cfgB devA devB) (hstab : StableB p devB) {s : Sy
   | tickA dt => exact moveOk_A hi (Local.step_good _ sa hi.a _ trivial)
   | tickB dt => exact moveOk_B hi (Local.step_good _ sb hi.b _ trivial)
 
-/-- **reassembly_inv.**  After ANY sequence of moves — arbitrary loss,
-    duplication, reordering and delay of genuine frames, timer expiries,
-    submissions and answers at any moment — the invariant holds: every
-    receiving transaction of the exchange holds exactly
-    `concat (segments 0..j)` with `lastSequenceNumber = j`. -/
-theorem reassembly_inv (g : p.Geo cfgA cfgB devA devB) (hstab : StableB p devB) :
-    ∀ (ms : List Move) {s : Sys}, SysInv p cfgA cfgB devA devB s →
+/-- transfers of at most 256 segments: every delivery is near -/
+theorem moveNear_of_le256 (hP : p.countP ≤ 256) (hR : p.countR ≤ 256) {s : Sys}
+    (hi : SysInv p cfgA cfgB devA devB s) (m : Move) : MoveNear p s m := by
+  cases m with
+  | deliverB i =>
+    intro f hf h0 hid hn1 _
+    have hm : (true, f) ∈ s.net := List.mem_of_getElem? hf
+    have hn : p.ReqFrame f := by simpa [NetOk] using hi.net _ _ hm
+    obtain ⟨_, idx, his⟩ := ((hn h0 hid).1 h0 hid).2 hn1
+    exact ⟨idx, his, fun t _ => near_of_le256 hP his.lt, fun _ => Nat.lt_of_lt_of_le his.lt hP⟩
+  | deliverA i =>
+    intro f hf h3 hid hn1 _
+    have hm : (false, f) ∈ s.net := List.mem_of_getElem? hf
+    have hn : f.ty ≠ 0 ∧ Genuine p.TR f := by simpa [NetOk] using hi.net _ _ hm
+    obtain ⟨_, idx, his⟩ := (hn.2 h3 hid).2 hn1
+    exact ⟨idx, his, fun t _ => ⟨fun _ => near_of_le256 hR his.lt, fun _ => Nat.lt_of_lt_of_le his.lt hR⟩⟩
+  | submit c => trivial
+  | answer => trivial
+  | drop i => trivial
+  | timeoutA => trivial
+  | timeoutB => trivial
+  | tickA dt => trivial
+  | tickB dt => trivial
+
+/-- **reassembly_inv (any length, near medium).**  After ANY sequence of moves
+    whose deliveries are near (`RunNear`) the invariant holds: every
+    receiving transaction of the exchange holds exactly `concat (segments
+    0..j)` with `lastSequenceNumber = j % 256`. -/
+theorem reassembly_inv_near (g : p.Geo cfgA cfgB devA devB) (hstab : StableB p devB) :
+    ∀ (ms : List Move) {s : Sys}, SysInv p cfgA cfgB devA devB s → RunNear p cfgA cfgB s ms →
       MoveOk p cfgA cfgB devA devB (Sys.run p cfgA cfgB s ms) := by
   intro ms
   induction ms with
-  | nil => intro s hi; exact moveOk_id hi
+  | nil => intro s hi _; exact moveOk_id hi
   | cons m ms ih =>
-    intro s hi
-    have h1 := move_ok g hstab hi m
-    have h2 := ih h1.inv
+    intro s hi hrun
+    have h1 := move_ok g hstab hi m hrun.1
+    have h2 := ih h1.inv hrun.2
     simp only [Sys.run]
     refine ⟨h2.inv, ?_, ?_⟩
     · intro o ho
@@ -398,22 +483,45 @@ theorem reassembly_inv (g : p.Geo cfgA cfgB devA devB) (hstab : StableB p devB) 
       · exact h1.outB o ho
       · exact h2.outB o ho
 
+/-- in transfers of at most 256 segments every run is near -/
+theorem runNear_of_le256 (g : p.Geo cfgA cfgB devA devB) (hstab : StableB p devB)
+    (hP : p.countP ≤ 256) (hR : p.countR ≤ 256) :
+    ∀ (ms : List Move) {s : Sys}, SysInv p cfgA cfgB devA devB s → RunNear p cfgA cfgB s ms := by
+  intro ms
+  induction ms with
+  | nil => intro s _; trivial
+  | cons m ms ih =>
+    intro s hi
+    have hn := moveNear_of_le256 hP hR hi m
+    exact ⟨hn, ih (move_ok g hstab hi m hn).inv⟩
+
+/-- **reassembly_inv.**  At most 256 segments per direction: after ANY sequence
+    of moves — arbitrary loss, duplication, reordering and delay of genuine
+    frames, timer expiries, submissions and answers at any moment — the
+    invariant holds: every receiving transaction of the exchange holds exactly
+    `concat (segments 0..j)` with `lastSequenceNumber = j`. -/
+theorem reassembly_inv (g : p.Geo cfgA cfgB devA devB) (hstab : StableB p devB)
+    (hP : p.countP ≤ 256) (hR : p.countR ≤ 256) (ms : List Move) {s : Sys}
+    (hi : SysInv p cfgA cfgB devA devB s) :
+    MoveOk p cfgA cfgB devA devB (Sys.run p cfgA cfgB s ms) :=
+  reassembly_inv_near g hstab ms hi (runNear_of_le256 g hstab hP hR ms hi)
+
 /-- the buffer of the receiving server transaction, spelled out -/
 theorem reassembly_server {s : Sys} (hi : SysInv p cfgA cfgB devA devB s) {t : Txn}
     (ht : t ∈ s.b.servers) (hk : t.key = p.kB) (hst : t.body.st = .segReq) :
-    ∃ c j, t.body.ctx = some c ∧ j + 1 < p.countP ∧ t.body.lastSeq = j ∧
+    ∃ c j, t.body.ctx = some c ∧ j + 1 < p.countP ∧ t.body.lastSeq = j % 256 ∧
       c.data = slicesUpTo p.P p.sizeP (j + 1) := by
   obtain ⟨c, _, _, hb⟩ := (hi.b.srv t ht).2.1 hst
-  obtain ⟨c', j, w, h1, h2, h3, h4, _⟩ := hb hk
+  obtain ⟨j, c', w, h1, h2, h3, h4, _⟩ := hb hk
   exact ⟨c', j, h1, h2, h3, h4⟩
 
 /-- the buffer of the receiving client transaction, spelled out -/
 theorem reassembly_client {s : Sys} (hi : SysInv p cfgA cfgB devA devB s) {t : Txn}
     (ht : t ∈ s.a.clients) (hk : t.key = p.kA) (hst : t.body.st = .segConf) :
-    ∃ c j, t.body.ctx = some c ∧ j + 1 < p.countR ∧ t.body.lastSeq = j ∧
+    ∃ c j, t.body.ctx = some c ∧ j + 1 < p.countR ∧ t.body.lastSeq = j % 256 ∧
       c.data = slicesUpTo p.R p.sizeR (j + 1) := by
   obtain ⟨c, _, _, hb⟩ := (hi.a.cli t ht).2 hst
-  obtain ⟨c', j, w, h1, h2, h3, h4, _⟩ := hb hk
+  obtain ⟨j, c', w, h1, h2, h3, h4, _⟩ := hb hk
   exact ⟨c', j, h1, h2, h3, h4⟩
 
 /-- the initial system: two fresh access points with their caches, nothing in flight -/
@@ -425,46 +533,65 @@ theorem init_inv : SysInv p cfgA cfgB devA devB (Sys.init devA devB) :=
    ⟨rfl, (by intro t h; cases h), (by intro t h; cases h)⟩,
    (by intro d f h; cases h)⟩
 
-/-- **payload_exact.**  While each
-    direction has at most 256 segments (`Geo.leP`, `Geo.leR`), under ARBITRARY
-    drop / duplication / reordering / delay of genuine frames, timer expiries
-    at any time:
-    * whenever B indicates the request of the exchange to its application, it
-      carries octet for octet the payload `P` A's application submitted;
-    * whenever A confirms a ComplexAck of the exchange to its application, it
-      carries octet for octet the payload `R` B's application submitted. -/
-theorem payload_exact (g : p.Geo cfgA cfgB devA devB) (hstab : StableB p devB) (ms : List Move) :
+/-- **payload_exact (any length; partial: the medium hypothesis `RunNear`).**
+    For transfers of ANY number of segments, under loss, duplication, delay
+    and reordering that never lets a segment overtake or fall behind by 256
+    or more segments (`MoveNear`), timer expiries at any time:
+    whatever B indicates as the request of the exchange carries exactly `P`,
+    whatever A confirms as its ComplexAck carries exactly `R`.
+    Full statement (not proved): `RunNear` derived for FIFO channels (deliver /
+    duplicate / drop at the head) and windows ≤ 127. -/
+theorem payload_exact_near_partial (g : p.Geo cfgA cfgB devA devB) (hstab : StableB p devB)
+    (ms : List Move) (hrun : RunNear p cfgA cfgB (Sys.init devA devB) ms) :
     let r := Sys.run p cfgA cfgB (Sys.init devA devB) ms
     (∀ x, Out.indicate p.peerA x ∈ r.2.2 → x.ty = 0 → x.invokeId = p.id → x.data = p.P) ∧
     (∀ x, Out.confirm p.peerB x ∈ r.2.1 → x.ty = 3 → x.invokeId = p.id → x.data = p.R) := by
   intro r
-  have h := reassembly_inv g hstab ms (init_inv (p := p) (cfgA := cfgA) (cfgB := cfgB))
+  have h := reassembly_inv_near g hstab ms (init_inv (p := p) (cfgA := cfgA) (cfgB := cfgB)) hrun
   refine ⟨?_, ?_⟩
   · intro x hx h0 hid
     exact (h.outB _ hx).2.2 p.peerA x rfl rfl h0 hid
   · intro x hx h3 hid
     exact (h.outA _ hx).2.2 p.peerB x rfl rfl h3 hid
 
-/-- **truncation_impossible.**  Whatever A's application
-    is told about the exchange that is NOT the exact response payload is not a
-    ComplexAck at all: it is an abort (or an error / reject PDU) — never a
-    truncated, duplicated or re-ordered payload; and B's application is never
-    indicated a request of the exchange with any other content than `P`. -/
+/-- **payload_exact.**  While each direction has at most 256 segments, under
+    ARBITRARY drop / duplication / reordering / delay of genuine frames, timer
+    expiries at any time, submissions and answers at any moment:
+    * whenever B indicates the request of the exchange to its application, it
+      carries octet for octet the payload `P` A's application submitted;
+    * whenever A confirms a ComplexAck of the exchange to its application, it
+      carries octet for octet the payload `R` B's application submitted. -/
+theorem payload_exact (g : p.Geo cfgA cfgB devA devB) (hstab : StableB p devB)
+    (hP : p.countP ≤ 256) (hR : p.countR ≤ 256) (ms : List Move) :
+    let r := Sys.run p cfgA cfgB (Sys.init devA devB) ms
+    (∀ x, Out.indicate p.peerA x ∈ r.2.2 → x.ty = 0 → x.invokeId = p.id → x.data = p.P) ∧
+    (∀ x, Out.confirm p.peerB x ∈ r.2.1 → x.ty = 3 → x.invokeId = p.id → x.data = p.R) :=
+  payload_exact_near_partial g hstab ms
+    (runNear_of_le256 g hstab hP hR ms (init_inv (p := p) (cfgA := cfgA) (cfgB := cfgB)))
+
+/-- **truncation_impossible.**  Whatever A's application is told about the
+    exchange that is NOT the exact response payload is not a ComplexAck at
+    all: it is an abort (or an error / reject PDU) — never a truncated,
+    duplicated or re-ordered payload; and B's application is never indicated a
+    request of the exchange with any other content than `P`. -/
 theorem truncation_impossible (g : p.Geo cfgA cfgB devA devB) (hstab : StableB p devB)
-    (ms : List Move) :
+    (hP : p.countP ≤ 256) (hR : p.countR ≤ 256) (ms : List Move) :
     let r := Sys.run p cfgA cfgB (Sys.init devA devB) ms
     (∀ x, Out.confirm p.peerB x ∈ r.2.1 → x.invokeId = p.id → x.data ≠ p.R → x.ty ≠ 3) ∧
     (∀ x, Out.indicate p.peerA x ∈ r.2.2 → x.invokeId = p.id → x.data ≠ p.P → x.ty ≠ 0) := by
   intro r
-  obtain ⟨h1, h2⟩ := payload_exact g hstab ms
+  obtain ⟨h1, h2⟩ := payload_exact g hstab hP hR ms
   exact ⟨fun x hx hid hne h3 => hne (h2 x hx h3 hid), fun x hx hid hne h0 => hne (h1 x hx h0 hid)⟩
 
-/-- **wire lemmas lifted to every step (client).**  In every reachable state,
+/-- **wire lemmas lifted to every step (client).**  In every reachable state
+    (any length under `RunNear`; for ≤ 256 segments `runNear_of_le256`
+    discharges it),
     every ConfirmedRequest frame of the exchange A hands to the network is the
     unsegmented whole (one slice) or segment `i` with sequence number
     `i % 256`, more-follows `= (i + 1 < count)` and the `i`-th slice, under the
     constant capability header. -/
-theorem wire_step_A (g : p.Geo cfgA cfgB devA devB) (hstab : StableB p devB) (ms : List Move) :
+theorem wire_step_A (g : p.Geo cfgA cfgB devA devB) (hstab : StableB p devB) (ms : List Move)
+    (hrun : RunNear p cfgA cfgB (Sys.init devA devB) ms) :
     ∀ f, Out.send p.peerB f ∈ (Sys.run p cfgA cfgB (Sys.init devA devB) ms).2.1 →
       f.ty = 0 → f.invokeId = p.id →
       ReqHdr p.mr p.ms p.sa p.svc f ∧
@@ -472,7 +599,7 @@ theorem wire_step_A (g : p.Geo cfgA cfgB devA devB) (hstab : StableB p devB) (ms
       (p.countP ≠ 1 → f.seg = true ∧ ∃ i, i < p.countP ∧ f.seq = i % 256 ∧
           f.mor = decide (i + 1 < p.countP) ∧ f.data = sliceOf p.P p.sizeP i) := by
   intro f hf h0 hid
-  have h := reassembly_inv g hstab ms (init_inv (p := p) (cfgA := cfgA) (cfgB := cfgB))
+  have h := reassembly_inv_near g hstab ms (init_inv (p := p) (cfgA := cfgA) (cfgB := cfgB)) hrun
   obtain ⟨hg, hh⟩ := (h.outA _ hf).2.1 p.peerB f rfl rfl h0 hid
   obtain ⟨g1, g2⟩ := hg h0 hid
   refine ⟨hh, g1, ?_⟩
@@ -483,7 +610,8 @@ theorem wire_step_A (g : p.Geo cfgA cfgB devA devB) (hstab : StableB p devB) (ms
 /-- **wire lemmas lifted to every step (server).**  The same for every
     ComplexAck frame of the exchange B hands to the network; and B never emits
     a ConfirmedRequest. -/
-theorem wire_step_B (g : p.Geo cfgA cfgB devA devB) (hstab : StableB p devB) (ms : List Move) :
+theorem wire_step_B (g : p.Geo cfgA cfgB devA devB) (hstab : StableB p devB) (ms : List Move)
+    (hrun : RunNear p cfgA cfgB (Sys.init devA devB) ms) :
     ∀ f, Out.send p.peerA f ∈ (Sys.run p cfgA cfgB (Sys.init devA devB) ms).2.2 →
       f.ty ≠ 0 ∧
       (f.ty = 3 → f.invokeId = p.id →
@@ -491,7 +619,7 @@ theorem wire_step_B (g : p.Geo cfgA cfgB devA devB) (hstab : StableB p devB) (ms
         (p.countR ≠ 1 → f.seg = true ∧ ∃ i, i < p.countR ∧ f.seq = i % 256 ∧
             f.mor = decide (i + 1 < p.countR) ∧ f.data = sliceOf p.R p.sizeR i)) := by
   intro f hf
-  have h := reassembly_inv g hstab ms (init_inv (p := p) (cfgA := cfgA) (cfgB := cfgB))
+  have h := reassembly_inv_near g hstab ms (init_inv (p := p) (cfgA := cfgA) (cfgB := cfgB)) hrun
   have ho := h.outB _ hf
   refine ⟨ho.1 p.peerA f rfl, ?_⟩
   intro h3 hid
@@ -537,8 +665,8 @@ theorem exGeo : exParams.Geo exCfg exCfg [] [] where
     simp only [Option.some.injEq, Prod.mk.injEq] at h
     exact ⟨h.1.symm, h.2.symm⟩
   wfR := ⟨by decide, by decide +kernel⟩
-  leP := by decide
-  leR := by decide
+
+theorem exLe : exParams.countP ≤ 256 ∧ exParams.countR ≤ 256 := by decide
 
 theorem exStable : StableB exParams [] := by
   intro d h; simp [lookupDI] at h
@@ -576,7 +704,7 @@ example (ms : List Move) :
     let r := Sys.run exParams exCfg exCfg (Sys.init [] []) ms
     (∀ x, Out.indicate 0 x ∈ r.2.2 → x.ty = 0 → x.invokeId = 1 → x.data = exParams.P) ∧
     (∀ x, Out.confirm 1 x ∈ r.2.1 → x.ty = 3 → x.invokeId = 1 → x.data = exParams.R) :=
-  payload_exact exGeo exStable ms
+  payload_exact exGeo exStable exLe.1 exLe.2 ms
 
 /-- in-order acceptance, concrete: SEGMENTED_CONFIRMATION holding segment 0,
     (a) segment 2 arrives early → negative ack naming 0, buffer unchanged;
@@ -592,5 +720,49 @@ example :
     r1.2 = [.send 1 (mkSegAck true false 1 0 2)] ∧
     (r2.1.map fun x => (x.ctx.map (·.data), x.lastSeq)) = some (some [1, 2, 3, 4], 1) := by
   decide +kernel
+
+/-! ### non-vacuity of the any-length theorem: a 257-segment request -/
+
+/-- 11 300 octets toward a peer accepting 50: 257 segments -/
+def exLong : Params := { exParams with P := List.replicate 11300 7, countP := 257 }
+
+theorem exGeoLong : exLong.Geo exCfg exCfg [] [] where
+  cutP := by
+    show setSegmentSize (List.replicate 11300 (7 : UInt8)).length
+      (clientMaxApdu (lookupDI [] 1) exCfg.maxApdu) 4 6 = some (44, 257)
+    rw [List.length_replicate]
+    decide +kernel
+  encMr := by rfl
+  encMs := by rfl
+  sa := by decide
+  holdB := exGeo.holdB
+  cutR := exGeo.cutR
+  wfR := exGeo.wfR
+
+/-- the state after the submission, and the frame it put on the medium -/
+def exLong1 : Sys := ((Sys.init [] []).move exLong exCfg exCfg (.submit none)).1
+def exLongF : Apdu := match exLong1.net with | (_, f) :: _ => f | [] => default
+
+/-- more than 256 segments, and the hypothesis `RunNear` of
+    `payload_exact_near_partial` holds for a (short) run: the first segment
+    is delivered to a server that has no buffer yet -/
+example : ¬ (exLong.countP ≤ 256) ∧
+    RunNear exLong exCfg exCfg (Sys.init [] []) [.submit none, .deliverB 0] := by
+  refine ⟨by decide, trivial, ?_, trivial⟩
+  intro f hf _ _ _ _
+  have hnet : exLong1.net[0]? = some (true, exLongF) := by decide +kernel
+  have hf' : exLong1.net[0]? = some (true, f) := hf
+  rw [hnet] at hf'
+  have hfe : f = exLongF := by
+    simp only [Option.some.injEq, Prod.mk.injEq, true_and] at hf'; exact hf'.symm
+  rw [hfe]
+  have h1 : exLongF.seq = 0 % 256 := by decide +kernel
+  have h2 : exLongF.mor = decide (0 + 1 < exLong.TP.count) := by decide +kernel
+  have h3 : exLongF.data = sliceOf exLong.TP.P exLong.TP.size 0 := by decide +kernel
+  refine ⟨0, ⟨by decide, h1, h2, h3⟩, ?_, fun _ => by decide⟩
+  intro t ht
+  have hnone : findTxn exLong.kB exLong1.b.servers = none := by decide +kernel
+  have ht' : findTxn exLong.kB exLong1.b.servers = some t := ht
+  rw [hnone] at ht'; cases ht'
 
 end BacVerif.C05
